@@ -262,6 +262,11 @@ def main(modname):
     for c in canaries:
         tc = time.time()
         hits = []
+        applicable = all(loader.read_source(m).count(old) == 1 for m, ps in c["patches"].items() for old, _new in ps)
+        if not applicable:
+            # the source lines the seeded fault targets have changed: the canary says nothing about this tree
+            canary_log.append({"name": c["name"], "found": None, "replayed": None, "inapplicable": True})
+            continue
 
         def on_canary(r, c=c):
             hits.append(r)
@@ -280,7 +285,7 @@ def main(modname):
             entry["detail"] = detail[:300] if isinstance(detail, str) else str(detail)
             entry["cex"] = hits[0]["cex"]
         canary_log.append(entry)
-    canary_fail = [c for c in canary_log if not (c["found"] and c["replayed"])]
+    canary_fail = [c for c in canary_log if not c.get("inapplicable") and not (c["found"] and c["replayed"])]
 
     # 2. the real exploration
     cfgs = mod.jobs(tier)
@@ -348,7 +353,7 @@ def main(modname):
         "property_id": pid, "tier": tier, "seed": seed, "level": getattr(mod, "LEVEL", "model_checking"),
         "coverage": {
             "states": max(res.paths, 1), "transitions": max(res.queries, 1),
-            "traces_validated_against_impl": len(confirmed) + len(kf_seen) + sum(1 for c in canary_log if c["replayed"]),
+            "traces_validated_against_impl": len(confirmed) + len(kf_seen) + sum(1 for c in canary_log if c.get("replayed")),
             "samples": res.samples[:6] or [{"note": "no sample recorded"}],
             "exhaustive": bool(res.open_prefixes == 0 and not res.inconclusive and not res.errors),
             "explanation": getattr(mod, "EXPLANATION", mod.TITLE),
@@ -378,7 +383,7 @@ def main(modname):
         json.dump(evidence, f, indent=1, sort_keys=True, default=str)
     print("%s [%s] %s: %d paths (%s), %d solver queries, %.1fs solver, %d open prefixes, canaries %s, wall %.1fs"
           % (pid, tier, status, res.paths, ", ".join("%s=%d" % kv for kv in sorted(res.by_status.items())), res.queries,
-             res.solver_s, res.open_prefixes, "/".join("ok" if (c["found"] and c["replayed"]) else "FAIL" for c in canary_log) or "-", wall))
+             res.solver_s, res.open_prefixes, "/".join(("n/a" if c.get("inapplicable") else ("ok" if (c["found"] and c["replayed"]) else "FAIL")) for c in canary_log) or "-", wall))
     for ln in lines:
         print(ln)
     sys.stdout.flush()
